@@ -466,6 +466,9 @@ class Routine(TimeThread, Stream):
         '''
 
         with self._state_lock:
+            if self.state == self.State.Running:
+                raise RoutineException('cannot be resumed within itself')
+
             if self.state == self.State.Paused:
                 raise PausedStream
 
